@@ -29,6 +29,7 @@ import shutil
 import sys
 import tempfile
 import time as _time
+import traceback
 import types
 import warnings
 
@@ -48,12 +49,35 @@ STATUSES = ["WAITING", "RUNNING", "SUCCESS", "ERROR", "CANCELED", "SUSPENDED", "
 COMPLETED = {"SUCCESS", "ERROR", "CANCELED"}
 GROUP = "verif_c19_group"
 
+HOSTILE = '<>:"|?*'          # characters some platforms refuse in a file name
+# group names used by the exhaustive family (the random histories draw theirs from `gen_name`)
+FIXED_NAMES = [GROUP, "scan 2024-05-17 12:30", "is it working?", "a*b", "<tmp>", 'say "hi"', "x|y", "v1.2_final.",
+               "uni\u00e9 \u65e5", " lead&trail;", "a.jgrp", "#1 [50%] {x}=$y,z+!@()^`~'\\"]
+
 SIGNATURES = {
     "ctx": "job-context-lost-on-reopen",
     "dir": "subdir-never-created",
     "add": "add-raises-after-append",
     "stat": "stale-status-after-rerun",
 }
+
+
+def repo_root():
+    return os.path.realpath(os.environ.get("VERIF_REPO") or "/repo")
+
+
+def through_code_under_test(e: BaseException):
+    """Did this exception leave the code under test?  -> short location string, or None when no frame below the
+    last harness frame belongs to the repository (then it is a harness problem and must not be masked)."""
+    tb = traceback.extract_tb(e.__traceback__)
+    here = os.path.realpath(__file__)
+    last_harness = max((i for i, f in enumerate(tb) if os.path.realpath(f.filename) == here), default=-1)
+    root = repo_root() + os.sep
+    inner = [f for f in tb[last_harness + 1:] if os.path.realpath(f.filename).startswith(root)]
+    if not inner:
+        return None
+    f = inner[-1]
+    return f"{os.path.relpath(os.path.realpath(f.filename), repo_root())}:{f.name}"
 
 
 class Kill(BaseException):
@@ -181,7 +205,7 @@ class _NoTqdm:
 class Env:
     """One history: its own data directory, scripted server and token tables."""
 
-    def __init__(self, root, dir_exists: bool):
+    def __init__(self, root, dir_exists: bool, group: str = GROUP):
         from perceval.runtime import JobGroup, RemoteJob
         import perceval.runtime.job_group as jgmod
         from perceval.utils import PersistentData
@@ -201,7 +225,12 @@ class Env:
         RemoteJob.STATUS_REFRESH_DELAY = -1     # every status evaluation may see a new server status
         self.handlers = [self.Handler(n, u, t, p) for (n, u, t, p) in HANDLERS]
         self.tables = {"hd": {}, "name": {"unnamed": 0}, "rest": {}, "rm": {}}
-        self.file = os.path.join(JobGroup._DIR_PATH, GROUP + "." + jgmod.FILE_EXT_JGRP)
+        self.group = group
+        self.file = self.file_of(group)
+
+    def file_of(self, name):
+        """where the property's anchor (`JobGroup._file_path`) puts the group called `name`"""
+        return os.path.join(self.JobGroup._DIR_PATH, name + "." + self.jgmod.FILE_EXT_JGRP)
 
     def tok(self, table, value):
         t = self.tables[table]
@@ -261,10 +290,12 @@ class Env:
         return {"id": idnum(e["id"]), "status": e["status"], "hd": self.canon_meta(e["metadata"]),
                 "body": self.canon_req(e["body"]) if "body" in e else None}
 
-    def read_file(self):
-        if not os.path.exists(self.file):
+    def read_file(self, name=None):
+        path = self.file if name is None else self.file_of(name)
+        if not os.path.exists(path):
             return None
-        data = json.load(open(self.file))
+        with open(path, encoding="UTF-8") as f:
+            data = json.load(f)
         return [self.canon_entry(e) for e in data["job_group_data"]]
 
     def canon_group_json(self, jg):
@@ -350,21 +381,73 @@ class Runner:
     """Executes a history on the real code one operation at a time (the random generator builds histories
     online against it, so that scripts, duplicates and outside ids fit the group's actual state)."""
 
-    def __init__(self, root, dir_exists):
-        self.env = Env(root, dir_exists)
+    def __init__(self, root, dir_exists, name=GROUP, twin=None, twin_pos="before"):
+        self.env = Env(root, dir_exists, name)
         self.oracle, self.steps, self.lean_ops, self.ops = [], [], [], []
         self.dir_exists = dir_exists
+        self.name, self.twin, self.twin_pos = name, twin, twin_pos
+        self.twin_file = None     # content of the bystander group's file once it exists
         self.dead = False
+        self.jg = None
         with warnings.catch_warnings():
             warnings.simplefilter("ignore")
-            self.jg = self.env.JobGroup(GROUP)
-            self.init = snapshot(self.env, self.jg, self.oracle, -1, None, None)
+            try:
+                if twin is not None and twin_pos == "before":
+                    self.make_twin()
+                self.jg = self.env.JobGroup(name)
+                if twin is not None and twin_pos == "after":
+                    self.make_twin()
+                self.init = snapshot(self.env, self.jg, self.oracle, -1, None, None)
+                self.check_twin(-1)
+            except Exception as e:   # noqa: BLE001
+                self.crashed(-1, e, "creating the group")
+                self.init = {"mem": [], "disk": None, "reload": None}
         self.prev_file = self.init["disk"]
+
+    # ---- a second group in the same directory, with a name close to the first: it must never change ----
+    def make_twin(self):
+        env = self.env
+        g = env.JobGroup(self.twin)
+        g.add(env.build_job(dict(PLAIN, hd=1, name=4, rest=3)))
+        self.twin_file = env.read_file(self.twin)
+        if self.twin_file is None or len(self.twin_file) != 1:
+            self.oracle.append((-1, "group-file-missing", f"a group named {self.twin!r} was created and given one job; "
+                                f"its file {os.path.basename(env.file_of(self.twin))!r} holds {self.twin_file}"))
+
+    def check_twin(self, t):
+        if self.twin is None or self.twin_file is None:
+            return
+        now = self.env.read_file(self.twin)
+        if now != self.twin_file:
+            self.oracle.append((t, "other-group-changed",
+                                f"operations on the group named {self.name!r} changed the file of the group named "
+                                f"{self.twin!r} (created {self.twin_pos} it, one unsent job): {self.twin_file} -> {now}"))
+            self.twin_file = now
+
+    def crashed(self, t, e, doing):
+        """An exception escaped while the harness was observing/driving the real code.  Through the code under
+        test -> that is a finding on a legal input; otherwise a harness problem, which must surface as such."""
+        where = through_code_under_test(e)
+        if where is None:
+            raise e
+        self.dead = True
+        self.oracle.append((t, f"exception-in-code-under-test:{type(e).__name__}",
+                            f"{doing}: {type(e).__name__}: {str(e)[:200]} raised in {where} on a legal history"))
 
     def step(self, op):
         with warnings.catch_warnings():
             warnings.simplefilter("ignore")
-            self._step(op)
+            t = len(self.ops)
+            try:
+                self._step(op)
+            except Exception as e:   # noqa: BLE001
+                self.crashed(t, e, f"observing the group after operation {t} ({op['op']})")
+                if len(self.ops) == t:
+                    self.ops.append(op)
+                if len(self.lean_ops) == t:
+                    self.lean_ops.append({"op": "reopen"})
+                if len(self.steps) == t:
+                    self.steps.append({"mem": [], "disk": None, "reload": None, "res": "crashed", "view": []})
 
     def _step(self, op):
         env, srv, oracle = self.env, self.env.server, self.oracle
@@ -383,7 +466,7 @@ class Runner:
         lop = {"op": kind}
         try:
             if kind == "reopen":
-                jg = JobGroup(GROUP)
+                jg = JobGroup(env.group)
             elif kind == "add_local":
                 from perceval.runtime import LocalJob
                 jg.add(LocalJob(lambda: None))
@@ -425,7 +508,7 @@ class Runner:
         except Kill:
             res = "killed"
             try:
-                jg = JobGroup(GROUP)      # the process is gone: only the file survives
+                jg = JobGroup(env.group)      # the process is gone: only the file survives
             except Exception:             # noqa: BLE001 — reported by snapshot() below
                 self.dead = True
         except Exception as e:        # noqa: BLE001 — every exception class is an observation
@@ -460,19 +543,24 @@ class Runner:
             oracle.append((t, "duplicate-id-accepted", f"adding a job whose id is already in the group gave {res}"))
         self.steps.append(snap)
         self.prev_file = snap["disk"]
+        self.check_twin(t)
 
     def finish(self):
         env = self.env
         created = [{"id": k, "req": env.canon_req(p)} for k, p in env.server.all_created]
         shutil.rmtree(env.dir, ignore_errors=True)
         hist = {"dir": self.dir_exists, "ops": self.ops}
+        if self.name != GROUP:
+            hist["name"] = self.name
+        if self.twin is not None:
+            hist["twin"], hist["twin_pos"] = self.twin, self.twin_pos
         return hist, {"init": self.init, "steps": self.steps, "lean_ops": self.lean_ops, "created": created,
                       "oracle": self.oracle}
 
 
 def run_real(root, hist):
     """-> dict(init, steps=[...], lean_ops=[...], created=[...], oracle=[(step, signature, what)])"""
-    r = Runner(root, hist["dir"])
+    r = Runner(root, hist["dir"], hist.get("name", GROUP), hist.get("twin"), hist.get("twin_pos", "before"))
     for op in hist["ops"]:
         r.step(copy.deepcopy(op))
     return r.finish()[1]
@@ -493,7 +581,7 @@ def snapshot(env, jg, oracle, t, op, res):
     mem = env.mem_view(jg)
     try:
         disk = env.read_file()
-        jg2 = env.JobGroup(GROUP)
+        jg2 = env.JobGroup(env.group)
     except Exception as e:   # noqa: BLE001 — the group can no longer be re-opened from its file at all
         oracle.append((t, "reopen-raises", f"re-opening the group from the file raises {type(e).__name__}: {e} "
                                            f"(memory holds {len(jg)} jobs)"))
@@ -502,22 +590,46 @@ def snapshot(env, jg, oracle, t, op, res):
     try:
         mem_json = env.canon_group_json(jg)
     except Exception as e:   # noqa: BLE001
+        if through_code_under_test(e) is None:
+            raise
         mem_json = None
         mem_err = type(e).__name__
-    re_json = env.canon_group_json(jg2)
+    try:
+        re_json = env.canon_group_json(jg2)
+    except Exception as e:   # noqa: BLE001
+        # the group a fresh process gets cannot even be serialised: its next add / run_* / rerun_* / status change
+        # (each of them rewrites the file) raises, while the same operation on the group in memory works
+        where = through_code_under_test(e)
+        if where is None:
+            raise
+        re_json = None
+        if mem_json is not None:
+            oracle.append((t, "reopened-group-unusable",
+                           f"the group re-opened from the file cannot be written back ({type(e).__name__}: "
+                           f"{str(e)[:120]} in {where}): every mutating operation of the re-opened group raises; "
+                           f"the group in memory serialises to {mem_json}"))
     # ---- direct oracle: re-opening yields the same group ----
+    unser_sig = SIGNATURES["add"] if (op is not None and op.get("op") == "add" and str(res).startswith("raised:")
+                                      and len(jg) == len(jg2) + 1) else "group-in-memory-unusable"
     if len(jg2) != len(jg):
-        if disk is None:
+        if disk is None and not os.path.isdir(os.path.dirname(env.file)):
             oracle.append((t, SIGNATURES["dir"], f"memory holds {len(jg)} jobs, but there is no file "
                                                  f"{os.path.relpath(env.file, env.dir)}: the re-opened group is empty"))
+        elif disk is None:
+            there = sorted(os.listdir(os.path.dirname(env.file)))
+            oracle.append((t, "group-file-missing",
+                           f"memory holds {len(jg)} jobs of the group named {env.group!r}, but its file "
+                           f"{os.path.basename(env.file)!r} does not exist (directory holds {there}): JobGroup(name) "
+                           f"does not find the group again and starts an empty one ({len(jg2)} jobs)"))
         elif mem_json is None:
-            oracle.append((t, SIGNATURES["add"], f"memory holds {len(jg)} jobs, the file {len(jg2)}: a job that cannot be "
+            oracle.append((t, unser_sig, f"memory holds {len(jg)} jobs, the file {len(jg2)}: a job that cannot be "
                                                  f"serialised ({mem_err}) stayed in memory after add() raised"))
         else:
             oracle.append((t, "length-differs", f"memory holds {len(jg)} jobs, the re-opened group {len(jg2)}"))
     elif mem_json is None:
-        oracle.append((t, SIGNATURES["add"], f"the in-memory group can no longer be serialised ({mem_err})"))
-    else:
+        oracle.append((t, unser_sig, f"the in-memory group can no longer be serialised ({mem_err}): every further "
+                                     f"operation that rewrites the file raises"))
+    elif re_json is not None:
         for i, (a, b) in enumerate(zip(mem_json, re_json)):
             if a == b:
                 continue
@@ -573,6 +685,12 @@ def strip_ctx(x):
     return x
 
 
+class Diff(str):
+    """first model/code difference; `.unexpected` = (step, exception class) when that difference is the real code
+    raising where the model (whose legal results are proved) returns normally"""
+    unexpected = None
+
+
 def compare(real, rep, variant):
     """first difference between the real run and the model's reply, or None"""
     norm = (lambda x: x) if variant["ctx"] else strip_ctx
@@ -599,7 +717,10 @@ def compare(real, rep, variant):
         return "step count differs"
     for t, (r, m) in enumerate(zip(real["steps"], rep["steps"])):
         if r["res"] != m["res"]:
-            return f"step {t}: result differs: real {r['res']} model {m['res']}"
+            d = Diff(f"step {t}: result differs: real {r['res']} model {m['res']}")
+            if r["res"].startswith("raised:") and m["res"] == "ok":
+                d.unexpected = (t, r["res"][len("raised:"):])
+            return d
         if r["view"] != m["view"]:
             return f"step {t}: view differs: real {r['view']} model {m['view']}"
         d = cmp_snap(f"step {t}", r, m)
@@ -735,7 +856,20 @@ def judge(chk, root, hist, variant, real=None, rep=None):
         out.append(("violation", sig, f"step {t}: {what}"[:900]))
     d = compare(real, rep, variant)
     if d is not None and not out:
-        out.append(("broken", "model-vs-code", d[:900]))
+        if getattr(d, "unexpected", None):
+            # up to this operation memory, file and re-opened group agreed with the model step by step; the
+            # operation is legal (the model, proved for all legal histories, performs it) and the real code raises
+            t, cls = d.unexpected
+            op = hist["ops"][t]
+            desc = op["op"] + ("" if op["op"] != "launch" else
+                               ":" + ("rerun" if op["rerun"] else "run") + ("-seq" if op["seq"] else "-par"))
+            after = " on a group re-opened earlier in this history" if any(
+                o["op"] == "reopen" or s_["res"] == "killed" for o, s_ in zip(hist["ops"][:t], real["steps"][:t])) else ""
+            out.append(("violation", f"operation-raises:{desc}:{cls}",
+                        f"step {t}: the legal operation {desc}{after} raises {cls} (the specification returns "
+                        f"normally); state before it agreed with the model: {real['steps'][t - 1] if t else real['init']}"[:900]))
+        else:
+            out.append(("broken", "model-vs-code", d[:900]))
     return out
 
 
@@ -875,11 +1009,48 @@ def polls(rng, n):
     return sts
 
 
+PLAIN_CHARS = "abcdefghijklmnopqrstuvwxyzABCXYZ0123456789_-"
+OTHER_CHARS = " .';%~#&[]{}$=,+!@()^`\\"
+UNICODE_CHARS = "\u00e9\u00fc\u00df\u65e5\u03bb\u0416"
+
+
+def gen_name(rng):
+    """a group name a user may choose: any file-name characters except the path separator (the name is 'also the
+    filename used to save data on disk'); never empty, never '.'/'..'"""
+    r = rng.random()
+    if r < 0.25:
+        return GROUP
+    if r < 0.45:
+        return rng.choice(FIXED_NAMES)
+    n = rng.randint(1, 14)
+    pools = [PLAIN_CHARS, PLAIN_CHARS, HOSTILE, OTHER_CHARS, UNICODE_CHARS]
+    name = "".join(rng.choice(rng.choice(pools)) for _ in range(n))
+    if name.strip(".") == "":
+        name = "g" + name
+    return name
+
+
+def gen_twin(rng, name):
+    """another group name, chosen close to `name`: what `name` becomes under the usual 'make it a safe file name'
+    rewritings, or a near neighbour — distinct names are distinct groups"""
+    cands = [name.translate(str.maketrans({c: "_" for c in HOSTILE})),
+             "".join(c if c.isalnum() else "_" for c in name),
+             "".join(c if c.isascii() else "_" for c in name),
+             name.replace(" ", "_"), name.strip(), name.rstrip(". "), name + "_", name + ".jgrp", name + " ", "_" + name,
+             name[:-1], name + "." + "jgrp"[:rng.randint(1, 3)], name.replace(".", "_")]
+    cands = [c for c in cands if c != name and c.strip(".") != "" and "/" not in c]
+    return rng.choice(cands) if cands else name + "_"
+
+
 def gen_history(rng, chk, max_ops, root):
     """Built online against the real group; returns (history, real run)."""
-    runner = Runner(root, rng.random() < 0.85)
+    name = gen_name(rng)
+    twin = gen_twin(rng, name) if rng.random() < 0.4 else None
+    runner = Runner(root, rng.random() < 0.85, name, twin, rng.choice(["before", "before", "after"]))
     n_ops = rng.randint(2, max_ops)
     for _ in range(n_ops):
+        if runner.dead and runner.jg is None:
+            break
         n, unsent, active, failed, ids = group_state(runner)
         r = rng.random()
         if n == 0 or r < 0.30:
@@ -929,6 +1100,7 @@ def exhaustive_histories(nmax, chk):
     kinds = [{"hd": 0, "name": 1, "rest": 1},
              {"hd": 1, "name": 2, "rest": 2, "ctx": 1},
              {"hd": 2, "name": 3, "rest": 1, "cmd": 10000, "max_shots": 100, "ctx": 2}]
+    k = -1
     for n in range(1, nmax + 1):
         adds = [{"op": "add", "job": dict(kinds[i % 3]), "kw": None} for i in range(n)]
         for vec in itertools.product([True, False], repeat=n):
@@ -955,7 +1127,11 @@ def exhaustive_histories(nmax, chk):
                             ]
                             for pos in range(len(base) + 1):     # pos == len(base): no re-open at all
                                 ops = base[:pos] + ([{"op": "reopen"}] if pos < len(base) else []) + base[pos:]
-                                yield {"dir": True, "ops": copy.deepcopy(ops)}
+                                h = {"dir": True, "ops": copy.deepcopy(ops)}
+                                k += 1
+                                if FIXED_NAMES[k % len(FIXED_NAMES)] != GROUP:
+                                    h["name"] = FIXED_NAMES[k % len(FIXED_NAMES)]
+                                yield h
 
 
 # ------------------------------------------------------------------------------------------------
@@ -984,8 +1160,37 @@ def account(chk, hist, real):
     chk.count("initial_directory", "exists" if hist["dir"] else "missing")
     if not hist["dir"]:
         chk.branch("fresh-dir")
+    name = hist.get("name", GROUP)
+    kinds = [k for k, ok in (("hostile", any(c in HOSTILE for c in name)),
+                             ("non-ascii", not name.isascii()),
+                             ("other-special", any((not c.isalnum()) and c not in "_-" and c not in HOSTILE and c.isascii()
+                                                   for c in name))) if ok] or ["plain"]
+    for k in kinds:
+        chk.count("group_name", k)
+        chk.branch("name-" + k)
+    if hist.get("twin") is not None:
+        chk.branch("twin-group")
+        chk.count("twin_group", hist.get("twin_pos", "before"))
+        if hist["twin"] == name.translate(str.maketrans({c: "_" for c in HOSTILE})):
+            chk.branch("twin-is-sanitised-name")
     sizes = [len(s["mem"]) for s in real["steps"]]
     chk.count("final_group_size", sizes[-1] if sizes else 0)
+    # a failed (ERROR/CANCELED) job saved, the group re-opened, the re-opened object then mutated
+    prev_disk, reopened_failed = real["init"]["disk"], False
+    for op, s in zip(hist["ops"], real["steps"]):
+        saved_failed = [e["status"] for e in (prev_disk or []) if e["id"] is not None and e["status"] in ("ERROR", "CANCELED")]
+        if (op["op"] == "reopen" or s["res"] == "killed") and saved_failed:
+            reopened_failed = True
+            for st in set(saved_failed):
+                chk.branch("reopen-with-saved-" + st.lower())
+        elif reopened_failed and s["res"] == "ok":
+            if op["op"] == "add":
+                chk.branch("add-after-reopen-with-failed")
+            elif op["op"] == "launch" and op["rerun"] and len(s["mem"]) and s["disk"] != prev_disk:
+                chk.branch("rerun-after-reopen-with-failed")
+            elif op["op"] == "launch" and not op["rerun"] and s["disk"] != prev_disk:
+                chk.branch("run-after-reopen-with-failed")
+        prev_disk = s["disk"]
     seen_add = False
     for op, s in zip(hist["ops"], real["steps"]):
         k = op["op"]
@@ -1046,6 +1251,158 @@ def handle_batch(chk, root, batch, variant, reals=None):
             chk.fail(kind, sig, what, {"history": small})
 
 
+# ------------------------------------------------------------------------------------------------
+# the file primitives themselves: PersistentData.write_file / read_file / has_file / delete_file over many names
+# ------------------------------------------------------------------------------------------------
+def fs_element(pd, style, name):
+    """how the element is named in the call: relative to the data directory, the way JobGroup does it (absolute
+    path of <dir>/job_group/<name>.jgrp), or a top-level file"""
+    if style == "rel":
+        return os.path.join("job_group", name + ".jgrp")
+    if style == "abs":
+        return os.path.join(pd.directory, "job_group", name + ".jgrp")
+    return name
+
+
+def run_fs(root, script):
+    """script = {"style":…, "binary":b, "names":[…], "ops":[{"op":write|delete|read|has|open, "n":i, "c":k}]}
+    -> (observations, oracle findings).  The oracle is a dictionary keyed by the *name*: what was last written under
+    a name is what must be found and read under that name, and under no other."""
+    from perceval.utils import PersistentData, FileFormat
+    d = tempfile.mkdtemp(prefix="fs-", dir=root)
+    obs, bad = [], []
+    try:
+        with warnings.catch_warnings():
+            warnings.simplefilter("ignore")
+            pd = PersistentData(d)
+            pd.create_sub_directory("job_group")
+            fmt = FileFormat.BINARY if script["binary"] else FileFormat.TEXT
+            enc = (lambda k: f"content-{k}".encode()) if script["binary"] else (lambda k: f'{{"content": {k}}}')
+            names = script["names"]
+            el = [fs_element(pd, script["style"], n) for n in names]
+            ref = {}
+
+            def read(i):
+                try:
+                    return pd.read_file(el[i], fmt)
+                except FileNotFoundError:
+                    return None
+
+            for t, op in enumerate(script["ops"]):
+                i, kind = op["n"], op["op"]
+                try:
+                    if kind == "write":
+                        pd.write_file(el[i], enc(op["c"]), fmt)
+                        ref[i] = op["c"]
+                        obs.append("done")
+                    elif kind == "delete":
+                        pd.delete_file(el[i])
+                        ref.pop(i, None)
+                        obs.append("done")
+                    elif kind == "read":
+                        got = read(i)
+                        obs.append({"content": None if got is None else
+                                    next((k for k in range(64) if enc(k) == got), f"foreign:{got!r}")})
+                    elif kind == "has":
+                        obs.append({"found": bool(pd.has_file(el[i]))})
+                    elif kind == "open":      # JobGroup.__init__: has_file ? read_file : write_file(<empty group>)
+                        if pd.has_file(el[i]):
+                            got = read(i)
+                        else:
+                            pd.write_file(el[i], enc(0), fmt)
+                            ref[i] = 0
+                            got = enc(0)
+                        obs.append({"content": None if got is None else
+                                    next((k for k in range(64) if enc(k) == got), f"foreign:{got!r}")})
+                    else:
+                        raise RuntimeError(f"unknown fs op {kind}")
+                except Exception as e:   # noqa: BLE001
+                    if through_code_under_test(e) is None and not isinstance(e, OSError):
+                        raise
+                    bad.append((t, f"file-primitive-raises:{type(e).__name__}",
+                                f"{kind} of the file named {names[i]!r} ({script['style']}) raises {type(e).__name__}: {e}"))
+                    obs.append("raised:" + type(e).__name__)
+                    break
+                # direct oracle: after every call the directory is the dictionary, name by name
+                for j, nm in enumerate(names):
+                    has = bool(pd.has_file(el[j]))
+                    got = read(j)
+                    want = enc(ref[j]) if j in ref else None
+                    if has != (j in ref) or got != want:
+                        bad.append((t, "files-not-keyed-by-name",
+                                    f"after {kind}({names[i]!r}) [{script['style']}]: under the name {nm!r} has_file says "
+                                    f"{has} and read_file gives {got!r}; last written under that name: {want!r} "
+                                    f"(directory: {sorted(os.listdir(os.path.join(d, 'job_group')))} + "
+                                    f"{sorted(x for x in os.listdir(d) if x != 'job_group')})"))
+                        break
+                if bad:
+                    break
+    finally:
+        shutil.rmtree(d, ignore_errors=True)
+    return obs, bad
+
+
+def gen_fs_script(rng, chk):
+    base = gen_name(rng)
+    names = [base]
+    for _ in range(rng.randint(1, 3)):
+        n = gen_twin(rng, rng.choice(names)) if rng.random() < 0.7 else gen_name(rng)
+        if n not in names:
+            names.append(n)
+    ops = []
+    for _ in range(rng.randint(3, 12)):
+        kind = rng.choice(["write", "write", "write", "delete", "read", "has", "open", "open"])
+        op = {"op": kind, "n": rng.randrange(len(names))}
+        if kind == "write":
+            op["c"] = rng.randint(1, 9)
+        ops.append(op)
+    style = rng.choice(["rel", "abs", "abs", "top"])
+    chk.count("fs_style", style)
+    return {"style": style, "binary": rng.random() < 0.25, "names": names, "ops": ops}
+
+
+def judge_fs(chk, root, script):
+    """-> list of (kind, signature, what)"""
+    obs, bad = run_fs(root, script)
+    out = [("violation", sig, f"call {t}: {what}"[:900]) for (t, sig, what) in bad[:1]]
+    rep = chk.lean.ask({"fs": script["ops"]})
+    if not out:
+        if "err" in rep:
+            out.append(("broken", "model-vs-code", f"the model rejected the file script: {rep['err']}"))
+        elif rep["obs"] != obs:
+            out.append(("broken", "model-vs-code", f"file primitives: real {obs} model {rep['obs']}"[:900]))
+    return out
+
+
+def shrink_fs(chk, root, script, sig):
+    cur = copy.deepcopy(script)
+    changed = True
+    while changed:
+        changed = False
+        for i in range(len(cur["ops"]) - 1, -1, -1):
+            cand = copy.deepcopy(cur)
+            del cand["ops"][i]
+            if any(s == sig for (_, s, _) in judge_fs(chk, root, cand)):
+                cur, changed = cand, True
+                break
+    return cur
+
+
+def handle_fs(chk, root, script):
+    chk.branch("fs-script")
+    if len(script["names"]) > 1:
+        chk.branch("fs-several-names")
+    if any(c in HOSTILE for n in script["names"] for c in n):
+        chk.branch("fs-name-hostile")
+    chk.case(("fs", script["style"], script["binary"], tuple(o["op"] for o in script["ops"])), nontrivial=True)
+    for kind, sig, what in judge_fs(chk, root, script):
+        seen = chk.extra.setdefault("failing_histories_per_signature", {})
+        seen[sig] = seen.get(sig, 0) + 1
+        if seen[sig] > 1:
+            continue
+        chk.fail(kind, sig, what, {"fs": shrink_fs(chk, root, script, sig) if kind == "violation" else script})
+
+
 def setup_perceval():
     warnings.simplefilter("ignore")
     try:
@@ -1057,9 +1414,11 @@ def setup_perceval():
 
 
 def load_corpus():
+    """-> [("history", h) | ("fs", script)]"""
     out = []
     for p in sorted(glob.glob(os.path.join(core.VERIF, "corpus", "C19", "*.json"))):
-        out.append(json.load(open(p))["history"])
+        d = json.load(open(p))
+        out.append(("fs", d["fs"]) if "fs" in d else ("history", d["history"]))
     return out
 
 
@@ -1086,7 +1445,12 @@ def run(chk: core.Check):
                              "rerun-replace", "rerun-append", "sequential", "dup-rejected", "ctx-job", "mapdelta-job",
                              "fresh-dir", "typeerror-add", "unused-kw", "sampler-job", "assertion-relaunch",
                              "unsent-error-in-rerun", "witness-ctx", "witness-dir", "witness-add", "witness-stat",
-                             "exhaustive-small-groups"]
+                             "exhaustive-small-groups",
+                             # shapes added after seeded changes C19-2 / C19-3 were missed
+                             "reopen-with-saved-error", "reopen-with-saved-canceled", "add-after-reopen-with-failed",
+                             "rerun-after-reopen-with-failed", "run-after-reopen-with-failed",
+                             "name-plain", "name-hostile", "name-non-ascii", "name-other-special", "twin-group",
+                             "twin-is-sanitised-name", "fs-script", "fs-several-names", "fs-name-hostile"]
     setup_perceval()
     chk.lean = core.LeanDriver("C19")
     root = tempfile.mkdtemp(prefix="run-", dir=_ROOT)
@@ -1101,8 +1465,14 @@ def run(chk: core.Check):
             raise RuntimeError(f"perceval's default persistent-data directory {default_dir} is outside the private root")
         variant = detect_variant(chk, root)
         chk.extra["code_variant"] = {k: ("repaired" if v else "defect present") for k, v in variant.items()}
-        for hist in load_corpus():
-            handle_batch(chk, root, [hist], variant)
+        for kind, item in load_corpus():
+            if kind == "fs":
+                handle_fs(chk, root, item)
+            else:
+                handle_batch(chk, root, [item], variant)
+        # the file primitives over several (close) names, against the name-keyed store of the model
+        for _ in range(chk.pick(300, 1500)):
+            handle_fs(chk, root, gen_fs_script(chk.rng, chk))
         # exhaustive family
         nmax = chk.pick(2, 3)
         batch = []
@@ -1145,6 +1515,12 @@ def replay(chk, data):
     chk.rule = "replay of one stored history"
     root = tempfile.mkdtemp(prefix="replay-", dir=_ROOT)
     try:
+        if "fs" in data["replay"]:
+            script = data["replay"]["fs"]
+            chk.case(("fs", script["style"]), True)
+            for kind, sig, what in judge_fs(chk, root, script):
+                chk.fail(kind, sig, what, {"fs": script})
+            return
         hist = data["replay"]["history"]
         real = run_real(root, hist)
         # the variant of the code under replay is detected the same way as in a full run
@@ -1153,8 +1529,8 @@ def replay(chk, data):
         chk.case(history_signature(hist, real), True)
         for (t, sig, what) in real["oracle"]:
             chk.fail("violation", sig, f"step {t}: {what}"[:900], {"history": hist})
-        d = compare(real, rep, variant)
-        if d is not None and not real["oracle"]:
-            chk.fail("broken", "model-vs-code", d[:900], {"history": hist, "detected_variant": variant})
+        if not real["oracle"]:
+            for kind, sig, what in judge(chk, root, hist, variant, real, rep):
+                chk.fail(kind, sig, what, {"history": hist, "detected_variant": variant})
     finally:
         shutil.rmtree(root, ignore_errors=True)
